@@ -150,6 +150,16 @@ class Tracer:
                 return {'o': 'arg', 'l': l, 'p': _norm_proj(p), 'name': self.body.local_name(l)}
         d = self.defs.single(l)
         if d is None:
+            # a read of `x.(as V).field` executes only where x holds variant V: when exactly one definition of x builds a V
+            # (the others build other variants: `n = None` on one path, `n = Some(cur)` on the other) it is that definition
+            q0 = _norm_proj(p)
+            if q0 and isinstance(q0[0], dict) and 'downcast' in q0[0] and not self.defs.pwrites.get(l):
+                ds = self.defs.of(l)
+                if ds and all(x[2] == 'assign' and x[3].get('r') == 'aggr' and x[3].get('agg') == 'adt' for x in ds):
+                    same = [x for x in ds if x[3].get('vi') == q0[0].get('vi')]
+                    if len(same) == 1:
+                        d = same[0]
+        if d is None:
             return {'o': 'local', 'l': l, 'p': _norm_proj(p), 'name': self.body.local_name(l),
                     'ndefs': len(self.defs.of(l))}
         bi, si, kind, payload = d
